@@ -5,7 +5,7 @@ PID = "C16"
 RULE = ("record soups: 1-5 blocks, each with any subset/order of the 15 known keys, repeated keys, unknown keys, values with "
         "'=' and surrounding blanks (incl. U+00A0/U+3000), 0-3 list items, blank lines, CRLF, lines without '='; single faults "
         "(block without PKGNAME, leading lines before the first PKGNAME, bad ALL_DEPENDS item, bad PKG_LOCATION, 'PKGNAME =x'); "
-        "and a reader failing after k lines for every k; non-trivial = >= 2 records or a fault")
+        "and a reader failing after k lines for every k; plus EVERY sequence of <= 4 (thorough 5) tokens of the record grammar; non-trivial = >= 2 records or a fault")
 FUNCTIONAL = True
 SCALARS = ["PKG_SKIP_REASON", "PKG_FAIL_REASON", "NO_BIN_ON_FTP", "RESTRICTED", "CATEGORIES", "MAINTAINER", "USE_DESTDIR", "BOOTSTRAP_PKG", "USERGROUP_PHASE", "PBULK_WEIGHT"]
 DEPS = ["mktools-[0-9]*:../../pkgtools/mktools", "pkg>=1.0:cat/pkg", "{a,b}-[0-9]*:../../x/y", "cwrappers>=20150314:../../pkgtools/cwrappers"]
@@ -62,6 +62,12 @@ def generate(rng, tier):
         filler = "x" * (65536 - len("MULTI_VERSION=") - 1)
         t = "PKGNAME=long-1.0\nSCAN_DEPENDS=" + deps + "\nMULTI_VERSION=" + filler + " PKGNAME=phantom-6.6 B=2\nPKGNAME=next-2.0\nMAINTAINER=" + "m" * L + "\n"
         cases.append(Case("scan.read", [enc(t), "N"], meta={"nt": True, "fault": "long"}))
+    # small scope, exhaustively: every sequence of <= 4 (thorough 5) tokens of the record grammar
+    import itertools
+    toks = ["PKGNAME=", "a-1", "\n", " ", "X=", "ALL_DEPENDS=", "p-[0-9]*:../../c/p", "=", "PKG_LOCATION=c/p"]
+    for L in range(1, (5 if tier == "quick" else 6)):
+        for tup in itertools.product(toks, repeat=L):
+            cases.append(Case("scan.read", [enc("".join(tup)), "N"], meta={"nt": L >= 3, "fault": "scope"}, tag="scope"))
     for t in ["", "\n\n", "PKGNAME=a-1\n", "PKGNAME=a-1", "X=1\nPKGNAME=a-1\n", "PKGNAME=a-1\nPKGNAME=b-2\n", "PKGNAME=a-1\n\nALL_DEPENDS=\nPKGNAME=b-2\nALL_DEPENDS=x\n"]:
         cases.append(Case("scan.read", [enc(t), "N"], meta={"nt": True}))
     for _ in range(n):
